@@ -100,4 +100,22 @@ GridPairs == (0..K) \X (0..K)
 ExportTopo == Export => PrintT(<<"TOPO", q[1], q[2], [c \in 1..K |-> <<Tm(q, c), Org(q, c), Depth(q, c)>>], GridPairs>>)
 ExportGeneric == (Export /\ q = CHOOSE t \in Topologies : TRUE) =>
    PrintT(<<"GENERIC", [t \in Types |-> [basic |-> Basic(t), frame |-> Frame(t), frameaxis |-> FrameAxis(t), rect |-> Rect(t, V("p"))]], [tt |-> RbTT, tr |-> RbTR]>>)
+\* ---- RBE3 with a re-assigned m-set (growth: the UM option of formrbe3) ------------------------------------------------------------
+\* DOF blocks: <<g, "t">> = translations 123 of grid g, <<g, "r">> = rotations 456.  Grid 0 is the dependent grid (all six DOF), grids 1..3
+\* are independent with their translations (grid 1 with its rotations too, so that an m-set inside the independent set can be invertible); the table lists the independent grids first.  An m-set is any choice of as many DOF as the
+\* dependent grid has, among all DOF of the element; the interpolation matrix then has the m-set as rows and every other DOF of the
+\* element as columns, both in table order, and states the SAME constraint: for every motion with u_dep = R u_ind, u_m = R_um u_rest.
+UmUniverse == {<<0, "t">>, <<0, "r">>, <<1, "r">>} \cup {<<g, "t">> : g \in 1..3}         \* grid 1 takes part with all six DOF
+UmDep == {<<0, "t">>, <<0, "r">>}
+UmChoices == {M \in SUBSET UmUniverse : Cardinality(M) = Cardinality(UmDep)}
+UmRest(M) == UmUniverse \ M
+TableRank(b) == (IF b[1] = 0 THEN 4 ELSE b[1]) * 2 + (IF b[2] = "t" THEN 0 ELSE 1)
+RECURSIVE InTableOrder(_)
+InTableOrder(S) == IF S = {} THEN <<>> ELSE LET b == CHOOSE x \in S : \A y \in S : TableRank(x) <= TableRank(y) IN <<b>> \o InTableOrder(S \ {b})
+UmLaws == \A M \in UmChoices :
+   /\ Cardinality(UmRest(M)) = Cardinality(UmUniverse) - Cardinality(UmDep)
+   /\ M \cap UmRest(M) = {}
+   /\ Len(InTableOrder(M)) = Cardinality(M)
+   /\ (M = UmDep => UmRest(M) = UmUniverse \ UmDep)            \* the m-set equal to the dependent set is the plain element
+ExportUm == (Export /\ q = CHOOSE t \in Topologies : TRUE) => PrintT(<<"UM", {<<InTableOrder(M), InTableOrder(UmRest(M))>> : M \in UmChoices}>>)
 =============================================================================
